@@ -331,7 +331,7 @@ func c11(c *ctx) {
 			hs2, err2 := mkU().Upgrade(plain)
 			emit(map[string]interface{}{"k": "debug", "key": key, "reqEq": bytes.Equal(gotReq, []byte(req)), "respEq": bytes.Equal(gotResp, rw.w.Bytes()),
 				"sameOutcome": (err == nil) == (err2 == nil) && hs.Protocol == hs2.Protocol && bytes.Equal(rw.w.Bytes(), plain.w.Bytes()),
-				"trailingOK":  true, "calls": calls}, fmt.Sprintf("debug/upgrader/%s/%d", dr.name[:3], dr.rb))
+				"trailingOK":  true, "wrapOK": true, "calls": calls}, fmt.Sprintf("debug/upgrader/%s/%d", dr.name[:3], dr.rb))
 		}
 	}
 	meta.Evaluations = n
@@ -371,8 +371,15 @@ func debugDial(key string, padLen int, trailing []byte, rb int, whole bool) map[
 	pc, head := mk()
 	var gotReq, gotResp []byte
 	calls := 0
+	// every second case: the application wraps the connection itself (Dialer.WrapConn); the debug
+	// wrapper must hand back that wrapper and all traffic must keep going through it
+	wrap := padLen%2 == 1
+	var w1, w2 *countConn
 	dd := wsutil.DebugDialer{Dialer: ws.Dialer{ReadBufferSize: rb, NetDial: func(ctx context.Context, n, a string) (net.Conn, error) { return &memConnRW{pc}, nil }},
 		OnRequest: func(b []byte) { gotReq = append([]byte(nil), b...); calls++ }, OnResponse: func(b []byte) { gotResp = append([]byte(nil), b...) }}
+	if wrap {
+		dd.Dialer.WrapConn = func(c net.Conn) net.Conn { w1 = &countConn{Conn: c}; return w1 }
+	}
 	conn, br, _, err := dd.Dial(context.Background(), "ws://debug.test/p")
 	var got []byte
 	if err == nil {
@@ -380,12 +387,17 @@ func debugDial(key string, padLen int, trailing []byte, rb int, whole bool) map[
 	}
 	pc2, _ := mk()
 	pd := ws.Dialer{ReadBufferSize: rb, NetDial: func(ctx context.Context, n, a string) (net.Conn, error) { return &memConnRW{pc2}, nil }}
+	if wrap {
+		pd.WrapConn = func(c net.Conn) net.Conn { w2 = &countConn{Conn: c}; return w2 }
+	}
 	conn2, br2, _, err2 := pd.Dial(context.Background(), "ws://debug.test/p")
 	var got2 []byte
 	if err2 == nil {
 		got2 = readAll(conn2, br2)
 	}
-	return map[string]interface{}{"k": "debug", "key": key, "reqEq": bytes.Equal(gotReq, pc.req.Bytes()), "respEq": bytes.Equal(gotResp, *head),
+	wrapOK := !wrap || (err == nil && err2 == nil && w1 != nil && w2 != nil && conn == net.Conn(w1) && conn2 == net.Conn(w2) &&
+		w1.read == w2.read && w1.written == w2.written && w1.read >= len(*head)+len(trailing))
+	return map[string]interface{}{"k": "debug", "key": key, "wrapOK": wrapOK, "reqEq": bytes.Equal(gotReq, pc.req.Bytes()), "respEq": bytes.Equal(gotResp, *head),
 		"sameOutcome": (err == nil) == (err2 == nil), "trailingOK": bytes.Equal(got, trailing) && bytes.Equal(got2, trailing), "calls": calls,
 		"got": len(got), "want": len(trailing), "plainGot": len(got2)}
 }
